@@ -33,6 +33,10 @@
 (*      code) _start_phase2 ranks the accepted ballots reported in promises by *)
 (*      their NUMBER only: on a tie between two proposers the first promise    *)
 (*      (the proposer's own) wins instead of the higher (number, node) pair.   *)
+(*  "accept_does_not_raise_promise"  (plausible mutation) _handle_accept       *)
+(*      stores the accepted ballot/value but leaves _promised_ballot alone: an *)
+(*      Accept that overtakes its own Prepare is accepted without a promise,   *)
+(*      and a stale Accept of a lower ballot later overwrites the chosen value.*)
 EXTENDS Integers, Sequences, FiniteSets, TLC
 
 CONSTANTS N, Dev,
@@ -151,7 +155,7 @@ HAccept(ns, n, m) ==
     LET b == <<m.bn, m.bi>> IN
     IF BLess(b, ns.prom)
     THEN R(ns, << Msg("nack", n, m.src, m.bn, m.bi, ns.prom[1], ns.prom[2], NoVal) >>, <<>>)
-    ELSE R([ns EXCEPT !.prom = b, !.accB = b, !.accV = m.v],
+    ELSE R([ns EXCEPT !.prom = IF "accept_does_not_raise_promise" \in Dev THEN @ ELSE b, !.accB = b, !.accV = m.v],
            << Msg("accepted", n, m.src, m.bn, m.bi, 0, 0, NoVal) >>, <<>>)
 
 HAccepted(ns, n, m) ==
